@@ -5,7 +5,7 @@ VERIF = os.path.dirname(os.path.dirname(os.path.abspath(__file__)))
 # ORX_HARNESS_DIR / ORX_WORK / ORX_OUT: used only by tools/seed_matrix.py to try seeded changes in scratch copies
 # (a harness copy whose path dependency points at a scratch worktree) without touching /repo or the committed evidence
 HARNESS = os.environ.get("ORX_HARNESS_DIR", os.path.join(VERIF, "harness"))
-LEAN = os.path.join(VERIF, "lean")
+LEAN = os.environ.get("ORX_LEAN_DIR", os.path.join(VERIF, "lean"))
 WORK = os.environ.get("ORX_WORK", os.path.join(VERIF, "work"))
 OUT = os.environ.get("ORX_OUT", VERIF)
 ENV = dict(os.environ, CARGO_NET_OFFLINE="true")
